@@ -35,9 +35,12 @@ impl ParseTree
 	) -> Self
 	{
 		// For nodes, we want to avoid the realloc at all costs.
-		// TODO so 1 is too small, 2 is very likely true but a bit of a magic number
+		// Every node is pushed on behalf of a token consumed by the same
+		// production and no token is parsed twice. The densest production is a
+		// chain of binary operators over bare identifiers (`a + a + a`):
+		// 5 nodes per identifier plus 3 per operator, so 4 nodes per token.
 		let num_tokens =
-			MAX_PARSE_NODE_CONTEXT + 2 * tokens.base_tokens().len();
+			MAX_PARSE_NODE_CONTEXT + 5 * tokens.base_tokens().len();
 		let nodes = Vec::with_capacity(num_tokens);
 
 		// The caller knows how many declarations there can be.
